@@ -111,17 +111,8 @@ theorem C10_all_waiters (P : Prog) (c : Cfg) (s : Sig) (rest : List Instr) (hc :
       (mark c.L.tickets s.cls).length = c.L.tickets.length ∧
       ∀ i (hi : i < c.L.tickets.length) (hi' : i < (mark c.L.tickets s.cls).length),
         (mark c.L.tickets s.cls)[i].line = c.L.tickets[i].line ∧ (mark c.L.tickets s.cls)[i].id = c.L.tickets[i].id ∧
-        ((mark c.L.tickets s.cls)[i].marked = true ↔ c.L.tickets[i].marked = true ∨ c.L.tickets[i].line = s.cls) := by
-  refine ⟨_, processSignal_step P c s rest hc, ?_, ?_, (mark_spec _ _).1, (mark_spec _ _).2⟩
-  · split
-    · rfl
-    · split <;> rfl
-  · intro k hk
-    have : k ∈ mark c.L.tickets s.cls := by
-      revert hk; split
-      · exact id
-      · split <;> exact id
-    exact mark_all _ _ k this
+        ((mark c.L.tickets s.cls)[i].marked = true ↔ c.L.tickets[i].marked = true ∨ c.L.tickets[i].line = s.cls) :=
+  processSignal_marks P c s rest hc
 
 /-! ### 5. a released waiter returns at its next check, without taking another signal -/
 
@@ -178,18 +169,8 @@ theorem C10_nonwaiting_stops (P : Prog) (c : Cfg) (pr : Int) (rest : List Instr)
 `pr`, and whenever it ends the queues are as they were. -/
 theorem C10_nonwaiting_history (P : Prog) (c c' : Cfg) (ht : Trans P c c') :
     (∀ pr q s, c.code.head? = some (.procIter (some pr)) → Tr.take q s ∈ newTr c c' → s.prio = pr) ∧
-    (Tr.procEnd ∈ newTr c c' → c'.L.queues = c.L.queues) := by
-  have horig := (trans_origin ht).toNewTr.2
-  refine ⟨fun pr q s hh hm => ?_, fun hm => ?_⟩
-  · obtain ⟨-, h | ⟨cls, t, h, -⟩ | ⟨p, h, hp, -⟩⟩ := horig _ hm
-    · rw [hh] at h; cases h
-    · rw [hh] at h; cases h
-    · rw [hh] at h; cases h
-      rcases hp with hp | hp
-      · cases hp
-      · cases hp; rfl
-  · obtain ⟨p, -, hq, -⟩ := horig _ hm
-    exact hq
+    (Tr.procEnd ∈ newTr c c' → c'.L.queues = c.L.queues) :=
+  nonwaiting_history ht
 
 /-! ### non-vacuity -/
 
